@@ -285,7 +285,10 @@ def read_obs(path):
         for line in f:
             line = line.strip()
             if line:
-                out.append(json.loads(line))
+                try:
+                    out.append(json.loads(line))
+                except ValueError:  # a driver killed mid-line (race detector, fatal runtime error): drop the cut-off line
+                    log("read_obs: dropped a truncated observation line in", path)
     return out
 
 
